@@ -1,0 +1,18 @@
+//go:build verif
+
+package verifhooks
+
+import "github.com/sourcegraph/zoekt/internal/ctags"
+
+// C38: index.Options.LanguageMap has a type from an internal package; build one from plain values
+// (1 = no ctags, 2 = universal-ctags, 3 = scip-ctags).
+func C38LanguageMap(m map[string]uint8) ctags.LanguageMap {
+	if m == nil {
+		return nil
+	}
+	out := ctags.LanguageMap{}
+	for k, v := range m {
+		out[k] = ctags.CTagsParserType(v)
+	}
+	return out
+}
